@@ -89,7 +89,7 @@ def make_cases(rng, nbase):
     cases = []
     k = 0
     N_SYSTEMATIC[0] = n_atoms
-    extra = "(v %s (int 0)) (v %s (str %s)) (m %s %s)" % (tgen.hexs("0"), tgen.hexs('"k"'), tgen.hexs("k"), tgen.hexs("get"), tgen.hexs("field:f"))
+    extra = "(v %s (int 0)) (v %s (str %s)) %s" % (tgen.hexs("0"), tgen.hexs('"k"'), tgen.hexs("k"), P.METHOD_MEANINGS)
     for b, (g, t, v, pg, pat, _) in enumerate(bases):
         for pos in P.POSITIONS:
             c = t3.Case()
@@ -154,6 +154,9 @@ def make_cases(rng, nbase):
 ROOT_EXPRS = [("root-sum", "v + 0"), ("root-cast", "v as i32"), ("root-paren-sum", "(v + 0)"), ("root-product", "v * 1"), ("root-block", "{ v }"), ("root-neg-neg", "-(-v)"), ("root-if", "if true { v } else { 0 }")]
 
 
+BORROWCK_CODES = {"E0382", "E0499", "E0502", "E0503", "E0505", "E0506", "E0507", "E0515", "E0521", "E0597", "E0713", "E0716"}
+
+
 def run(ck):
     ck.prove(["AsModel.Theorems.C11"])
     ck.build_harness("inproc")
@@ -179,6 +182,12 @@ def run(ck):
                 ck.report("parse:%s/%s" % (pos, c.form), "a pattern accepted in a struct-field position is rejected by the macro's parser in another position",
                           dict(t3.describe(c), position=pos, form=c.form, field_position=t3.describe(ref), macro_error=c.got[2]))
             elif gk == "rejected":
+                code = c.got[2].split(" ")[0]
+                # The recorded findings of this family are TYPE errors (the pattern is handed `T` / a place instead of `&T`: E0631, E0277,
+                # E0308, ...) and, for closures on a place, the move out of it (E0507). A rejection by the borrow checker anywhere else -
+                # a moved local, a temporary dropped while borrowed - is a different defect and gets a key of its own.
+                if code in BORROWCK_CODES and not (cell.startswith("place/closure/") and code == "E0507"):
+                    cell = "borrowck:%s:%s" % (code, cell)
                 ck.report("accept:" + cell, "a pattern accepted in a struct-field position is rejected by the compiler in another position",
                           dict(t3.describe(c), position=pos, form=c.form, field_position=t3.describe(ref), rustc=c.got[2]))
             elif gk in ("pass", "fail"):
@@ -190,10 +199,10 @@ def run(ck):
                               dict(t3.describe(c), position=pos, form=c.form))
             else:
                 ck.report("run:" + cell, "the program did not run to completion: " + gk, dict(t3.describe(c), position=pos))
-    ck.corr_record("T3 position sweep (the same (value, pattern) wrapped in 17 positions, and one reference level up in 5 more with the asserted expression written as a borrow / a parenthesised borrow / a variable: acceptance by rustc and verdict compared with the struct-field position and with the specification)",
+    ck.corr_record("T3 position sweep (the same (value, pattern) wrapped in 21 positions, and one reference level up in 5 more with the asserted expression written as a borrow / a parenthesised borrow / a variable: acceptance by rustc and verdict compared with the struct-field position and with the specification)",
                    len(cases), len(nontriv), 0, dist,
                    samples=[dict(position=c.position, invocation="assert_struct!(%s)" % c.text, value=c.value_text, outcome=c.got[0]) for c in cases[:3]],
-                   rule="seeded (type, value, pattern) bases x {field, root, tuple element, variant element, slice element, set element, map value, Ok, Err, nested field, tuple index, index, deref, method result, wildcard-struct field, struct-variant field, method result returned by value}; distinct = distinct (invocation, value); non-trivial = inner pattern is not `_`")
+                   rule="seeded (type, value, pattern) bases x {field, root, tuple element, variant element, slice element, set element, map value, Ok, Err, nested field, tuple index, index, deref, method result, wildcard-struct field, struct-variant field, method result returned by value, projection / index after a method result, tuple-index chain, borrow of a by-value method result}; distinct = distinct (invocation, value); non-trivial = inner pattern is not `_`")
     # the template half (expandPat_subst, C11_template_position_independent, ...) is about the generator model: tie it to the real expansion
     res = t2.run(ck)
     mm = t2.record(ck, res, ("body",), "the generated assertion code (the template theorems of C11 speak about it)")
